@@ -204,7 +204,18 @@ func cmdCheck(args []string) int {
 	var mu sync.Mutex
 	sem := make(chan struct{}, 16)
 	var wg sync.WaitGroup
+	// VERIF_FAILFAST=1 (seed matrix only): stop launching harnesses once one has reported a violation
+	failfast := os.Getenv("VERIF_FAILFAST") == "1"
 	for _, h := range hs {
+		if failfast {
+			mu.Lock()
+			nv := len(viols)
+			mu.Unlock()
+			if nv > 0 {
+				fmt.Println("  (fail-fast: remaining harnesses skipped)")
+				break
+			}
+		}
 		p, err := getProg(h.Tags)
 		if err != nil {
 			fmt.Println("LOAD ERROR:", err)
